@@ -168,7 +168,7 @@ def instances(ctx, spec, profile):
     path = os.path.join(GEN, "Inst_%s_%s.v" % (ctx.pid, profile))
     with open(path, "w") as f:
         f.write("From Coq Require Import List NArith Bool.\n")
-        f.write("From BioSeq Require Import %s.\n" % " ".join(spec.get("imports", ["Bits", "Codec", "Tables"])))
+        f.write("From BioSeq Require Import %s.\n" % " ".join(spec.get("imports", ["Bits", "Codec", "Tables", "Spec", "Derive", "C05Check"])))
         f.write("From BioSeqGen Require Import Real_%s.\nImport ListNotations.\nOpen Scope N_scope.\n" % profile)
         for l in spec.get("extra_imports", []):
             f.write(l + "\n")
